@@ -426,6 +426,10 @@ RETYPES = ["1979-05-27", "1979-05-27T07:32:00Z", "07:32:00", "1.5", "true", "\"t
            "9223372036854775808", "-9223372036854775809", "0x10", "1e400", "nan", "inf", "''", "[[1]]", "99999999999999999999"]
 
 
+ODD_STRINGS = [b'"c1, 2"', b'"c1 ,2"', b'" c1"', b'"c1 "', b'"c1,\\t2"', b'"c1,\\u00a02"', b'"c1\\n"', b'"c1,\\r2"', b'"60,\xc2\xa01"', b'"60\xe3\x80\x801"',
+               b'"c1,,2"', b'","', b'""', b'" "', b'"\\u2028"', b'"c1\\u0000"', b'"60,1,2"', b'"c 1"', b'"\xe2\x80\x8b60"', b"'c1,\t2'", b'"""c1\n"""']
+
+
 def mutate_file(text, rng):
     """one syntactic/semantic mutation of a TOML file (bytes in, bytes out)"""
     lines = text.split(b"\n")
@@ -442,7 +446,11 @@ def mutate_file(text, rng):
         if idx:
             i = rng.choice(idx)
             k, _, v = lines[i].partition(b"=")
-            lines[i] = k + b"= " + rng.choice(RETYPES).encode()
+            if rng.random() < 0.2:
+                # a string value with odd white space and separators (TOML escapes and raw UTF-8): "note, offset" written by hand
+                lines[i] = k + b"= " + rng.choice(ODD_STRINGS)
+            else:
+                lines[i] = k + b"= " + rng.choice(RETYPES).encode()
     elif r < 0.60:
         # an odd key name: empty quoted key, spaces, quotes, very long, non-ASCII (the error paths quote the key back)
         idx = [i for i, l in enumerate(lines) if re.match(rb"^\s*[\"A-Za-z0-9_-]+\s*=", l)]
